@@ -568,8 +568,8 @@ def run_bounded(run, tier, seed):
         part,
         bounds={'partitions': 'ALL partitions of n = 1..%d nodes (Bell numbers 1, 2, 5, 15, 52%s)' % (nmax, ', 203' if thorough else ''),
                 'relabellings': RELDESC % full_upto,
-                'graphs': 'per n and graph class (undirected non-negative, undirected signed, directed non-negative; weights from {0.5, 1, 2, 3} by position): complete, ring with chord, '
-                          'star with an isolated node, complete binary (unsigned classes), %d seeded random graphs' % nrandom,
+                'graphs': 'per n and graph class (undirected non-negative, undirected signed, directed non-negative with some reverse arcs removed; weights from {0.5, 1, 2, 3} by position, '
+                          'signs by position): complete, and for n >= 3 ring with chord and star with an isolated node; complete binary (unsigned classes); %d seeded random graphs (p = 0.6..0.65)' % nrandom,
                 'functions': variants,
                 'domain': 'non-negative weights for participation_coef, module_degree_zscore, modularity_und/_dir; signed weights for the *_sign routines; integer labels'},
         rule='one case = (function variant, graph, partition, relabelling g != identity): f(W, ci) must equal f(W, g(ci)) (rtol 1e-9, atol 1e-12, nan = nan); a returned community vector must be the '
